@@ -414,8 +414,10 @@ pub fn wide_params(thorough: bool) -> Vec<(W, usize)> {
     if thorough {
         v.push((mk("wide-db-1021+2undrained+2", true, 4, 1021, 2, Style::N, 2), 1));
         v.push((mk("wide-mem-1030+2", false, 0, 1030, 0, Style::N, 2), 2));
-        v.push((mk("wide-db-1025+3", true, 4, 1025, 0, Style::N, 3), 2));
-        v.push((mk("wide-db-1022+2undrained+2", true, 64, 1022, 2, Style::N, 2), 2));
+        // (each execution repeats ~10^5 steps of set-up: bound 1 for three
+        // tasks on the cached engine)
+        v.push((mk("wide-db-1025+3", true, 4, 1025, 0, Style::N, 3), 1));
+        v.push((mk("wide-db-1022+2undrained+2", true, 64, 1022, 2, Style::N, 2), 1));
         v.push((mk("wide-mem-1100+3", false, 0, 1100, 0, Style::N, 3), 2));
     }
     v
